@@ -88,7 +88,7 @@ def lexing_obligations(repo):
                 continue
             decided = True
             if verdict == "match":
-                got = {k: v for k, v in groups.items() if v is not None}
+                got = {k: v[1] for k, v in groups.items() if v is not None}
                 pieces = [i for i, p in enumerate(shape) if p[0] != "s"]
                 want = dict(zip(list(expect), pieces))
                 ob("durlex[%s].groups-are-the-designated-units" % name, got == want,
